@@ -28,7 +28,7 @@ c_QueryOn == FALSE
 c_J == 2
 c_EmitOps == {0}
 c_EmitMod == 30
-c_EmitRes == 1
+c_EmitRes == 0
 c_EmitSmall == 3
 c_EmitFilter == "all"
 ====
